@@ -985,7 +985,7 @@ def do_request(world, entry, opt, route, verdicts, where):
                 exp = behave(ref, call_args(entry, a), entry.fake)
                 if got != exp:
                     verdicts.append(dict(info, what='behaviour differs from cache-less reference conversion',
-                                         args=list(a), got=repr(got), expected=repr(exp)))
+                                         args=[repr(x)[:60] for x in a], got=repr(got), expected=repr(exp)))
             sg, sr = gen_source(g), gen_source(ref)
             if sg is not None and sr is not None and sg != sr:
                 import difflib
@@ -1005,7 +1005,7 @@ def do_request(world, entry, opt, route, verdicts, where):
                 exp = behave(fn, tuple(a), entry.fake)
             if got != exp:
                 verdicts.append(dict(info, what='converted call differs from cache-less reference conversion',
-                                     args=list(a), got=repr(got), expected=repr(exp)))
+                                     args=[repr(x)[:60] for x in a], got=repr(got), expected=repr(exp)))
     except Exception as e:       # noqa
         verdicts.append(dict(info, what='request raised %s: %s' % (type(e).__name__, str(e)[:200])))
 
